@@ -20,6 +20,32 @@ pub fn run(_seed: u64, _thorough: bool) {
         Line::new("oracle").str("name", "all_five_types_probed").raw("ok", if want.iter().all(|w| names.contains(w)) { "true" } else { "false" })
             .str("hash", hash).emit();
     }
+    // drop-time wiping of the one secret-bearing type that is public: a populated Seed is dropped in
+    // place inside storage that stays readable, and no secret byte may be left in that storage afterwards
+    for (hash, n) in ALL_HASHES.iter() {
+        let (before, after) = with_hash!(*hash, H => {
+            let mut seed = hbs_lms::Seed::<H>::default();
+            for b in seed.as_mut_slice().iter_mut() {
+                *b = 0xa5;
+            }
+            let size = core::mem::size_of::<hbs_lms::Seed<H>>();
+            let mut slot = core::mem::MaybeUninit::<hbs_lms::Seed<H>>::uninit();
+            // SAFETY: the slot is written before it is dropped in place; its storage outlives the drop and is
+            // only read as plain bytes afterwards.
+            unsafe {
+                slot.as_mut_ptr().write(seed);
+                let before = core::slice::from_raw_parts(slot.as_ptr() as *const u8, size).to_vec();
+                core::ptr::drop_in_place(slot.as_mut_ptr());
+                let after = core::slice::from_raw_parts(slot.as_ptr() as *const u8, size).to_vec();
+                (before, after)
+            }
+        });
+        let had = before.iter().filter(|b| **b == 0xa5).count() >= *n;
+        // (the length field of the fixed-capacity vector is not a secret and may keep its value)
+        let ok = had && !after.contains(&0xa5) && after.iter().filter(|b| **b != 0).count() <= 2;
+        Line::new("oracle").str("name", "seed_is_wiped_when_dropped").raw("ok", if ok { "true" } else { "false" })
+            .str("hash", hash).hex("before", &before).hex("after", &after).emit();
+    }
     // the exhausted key handed to the callback contains no seed bytes
     for shape in [Shape { hash: "sha256_256", levels: vec![(3, 1)] }, Shape { hash: "shake256_128", levels: vec![(3, 1), (3, 1)] },
                   Shape { hash: "sha256_192", levels: vec![(2, 1), (3, 1)] }] {
